@@ -1393,3 +1393,131 @@ CLAIMS += [
           "iff it is not the first, the element, and finally the closer; output stops at the first failed write",
           "any number of elements (loop cut, base case = opener only), arbitrary element printer", configs=("fast",), also=("C02", "C07", "C13")),
 ]
+
+
+# ----------------------------------------------------------------------------- numbers: the digits are those of the stored value
+
+def claim_number_text(cx, res, kf):
+    """write_number: Number::visit hands the stored payload to the visitor method of its representation, and each visitor
+    method writes exactly itoa(n) resp. ryu(n) of THAT value (one emission); byte-vector elements are written as itoa(octet).
+    (itoa / ryu themselves are trusted libraries.)"""
+    from . import confirm as CF
+    onm = CF.confirm(("print",), res)
+    NN = cx.enums["N"]
+    n_done = 0
+    # ---- Number::visit dispatch
+    fn = None
+    for name, f in cx.fns.items():
+        if "lexpr/src/number.rs" in name and name.endswith("::visit") and "{closure" not in name and "Number" in f.local_ty.get(f.args[0], ""):
+            fn = f
+    if fn is None:
+        res.error = "Number::visit not found"
+        return
+    eng = C.make_engine(cx, [], loop_mode="cut", timeout_s=60)
+
+    def h_visit(engine, st, fr, callee, argv, m):
+        st.events.append(("visit", m.group(1), argv[1]))
+        return Blob("visited")
+    eng.stubs = [(re.compile(r"^<V as (?:number::)?Visitor>::(visit_\w+)$"), h_visit)] + S.CORE_STUBS
+    info = {}
+
+    def init(e, st, fr):
+        nd = z3.BitVec("numkind", 64)
+        u, i_, f_ = e.sym_int("u64", "u"), e.sym_int("i64", "i"), e.sym_f64("f")
+        num = Agg("struct", "Number", [EnumV("N", nd, {NN.index("PosInt"): [u], NN.index("NegInt"): [i_], NN.index("Float"): [f_]})])
+        st.heap["num"] = num
+        fr.locals[fn.args[0]] = Ref(("H", "num"))
+        fr.locals[fn.args[1]] = Opaque("V", "visitor", {})
+        info.update(nd=nd, u=u, i=i_, f=f_)
+        return [z3.ULT(nd, z3.BitVecVal(len(NN), 64))]
+    terms = eng.explore(fn.name, init)
+    res.absorb(eng)
+    for t in terms:
+        pc = list(t.state.pc)
+        vs = [e for e in t.state.events if e[0] == "visit"]
+        if t.kind != "RETURN" or len(vs) != 1:
+            res.must_be_unsat(pc, "Number::visit does not call exactly one visitor method", onm)
+            continue
+        n_done += 1
+        meth, arg = vs[0][1], vs[0][2]
+        want = {"visit_u64": (NN.index("PosInt"), info["u"]), "visit_i64": (NN.index("NegInt"), info["i"]), "visit_f64": (NN.index("Float"), info["f"])}.get(meth)
+        if want is None:
+            res.must_be_unsat(pc, "Number::visit calls %s" % meth, onm)
+            continue
+        same_val = (arg.e == want[1].e) if not isinstance(arg.e, z3.FPRef) else z3.fpToIEEEBV(arg.e) == z3.fpToIEEEBV(want[1].e)
+        res.must_be_unsat(pc + [z3.Not(z3.And(info["nd"] == want[0], same_val))], "Number::visit hands another value / representation to %s" % meth, onm)
+    # ---- the visitor methods of the printer and the byte-vector element closures
+    for name, f in cx.fns.items():
+        is_num = "write_number" in name and "::visit_" in name
+        is_elem = "print::" in name and "write_bytes::{closure" in name
+        if not (is_num or is_elem):
+            continue
+        argv_info = {}
+
+        def mk2(e, st, f=f, argv_info=argv_info):
+            vals = []
+            for a in f.args:
+                ty = f.local_ty.get(a, "").strip()
+                if ty.startswith("print::Formatter::write_number::Write"):
+                    vals.append(Agg("struct", "Write", [Ref(("H", "writer"))]))
+                elif ty.startswith("&mut {closure") or ty.startswith("&{closure"):
+                    vals.append(Blob("closure-env"))
+                elif ty == "&u8":
+                    o = e.sym_int("u8", "octet")
+                    argv_info["n"] = o
+                    vals.append(Ref(("V", o)))
+                elif ty == "&mut W":
+                    continue
+                elif ty in ("u64", "i64"):
+                    n_ = e.sym_int(ty, "n")
+                    argv_info["n"] = n_
+                    vals.append(n_)
+                elif ty == "f64":
+                    n_ = e.sym_f64("n")
+                    argv_info["n"] = n_
+                    vals.append(n_)
+                else:
+                    v = synth_arg(cx, e, st, ty)
+                    if v is None:
+                        raise Unsupported("no argument synthesis for %s in %s" % (ty, f.name))
+                    vals.append(v)
+            return vals, [], {}
+        eng, fn2, info2, terms = explore_print(cx, res, name, mk2)
+        for t in terms:
+            st = t.state
+            pc = list(st.pc)
+            if t.kind != "RETURN" or K.classify_return(eng, t)[0] not in ("ok", "sym"):
+                continue
+            kind, payload = K.classify_return(eng, t)
+            extra = [payload.discr == 0] if kind == "sym" else []
+            ems = emissions(st)
+            short = name.split("print::")[-1]
+            if len(ems) != 1 or ems[0][0] != "emit" or ems[0][1][0] not in ("itoa", "ryu"):
+                res.must_be_unsat(pc + extra, "%s does not write exactly the formatted number (%r)" % (short, [e[:2] for e in ems]), onm)
+                continue
+            n_done += 1
+            how, val = ems[0][1][0], ems[0][1][1]
+            arg = argv_info.get("n")
+            if arg is None:
+                continue
+            while isinstance(val, Ref):
+                val = eng.load(st, val.addr)
+            want_how = "ryu" if name.endswith("visit_f64") else "itoa"
+            if how != want_how:
+                res.must_be_unsat(pc + extra, "%s formats with %s instead of %s" % (short, how, want_how), onm)
+                continue
+            if isinstance(arg.e, z3.FPRef):
+                cond = z3.fpToIEEEBV(val.e) == z3.fpToIEEEBV(arg.e)
+            else:
+                cond = val.e == arg.e if val.e.size() == arg.e.size() else z3.ZeroExt(val.e.size() - arg.e.size(), arg.e) == val.e
+            res.must_be_unsat(pc + extra + [z3.Not(cond)], "%s formats another value than the one it was given" % short, onm)
+    res.vacuity.append(("number / octet writers examined", n_done >= 6))
+
+
+CLAIMS += [
+    Claim("c01_number_text", "C01", "quick", claim_number_text,
+          "numbers print as the decimal digits of the stored value: Number::visit passes the payload of its representation to "
+          "the matching visitor method, the printer's visitor methods write exactly itoa(n) / ryu(n) of that value, byte-vector "
+          "elements exactly itoa(octet)",
+          "every u64 / i64 / f64 payload, every octet; itoa and ryu trusted", configs=("fast",), also=("C02", "C05", "C07", "C13")),
+]
